@@ -244,4 +244,13 @@ def plan(tier):
                       data='none symbolic (time values enumerated: future, equal and past time points, ties, a busy thread that makes later sleepers late)',
                       bounds='<= 3 sleepers, time values 0..7',
                       outside='start() in several threads / recursively; a second start() on the same scheduler (coroutine frame in alloca storage); thread and thread-pool mode (needs the C11 thread model)'))
+    K = 8
+    vm = [[0, d, e, k] for d in (1, 2) for e in range(5) for k in range(K)] + [[1, d, e, 0] for d in range(3) for e in range(5)]
+    units.append(dict(engine='e1', name='h_start_mt', tu='C12.cpp', defines=['C12_START'], entry='h_start_mt', unwind=14, vectors=vm,
+                      concrete=[([0, 1, 0, 1], []), ([0, 2, 1, 3], []), ([1, 1, 0, 0], []), ([1, 0, 2, 0], []), ([1, 2, 4, 0], []), ([0, 1, 3, 7], [])],
+                      space='the scheduling thread (worker loop of start(awaitable), virtual clock, one local sleeper with deadline D in {4, 8} or none) against another thread that calls sleep_until(e), e in {2..10}: '
+                            'the other thread\'s complete call is placed in front of the k-th acquisition of the scheduler mutex by the scheduling thread (k = 1..%d), or while the scheduling thread sits in its timed wait '
+                            '(schedule() must wake it when the new entry is the earliest); full product' % K,
+                      data='none symbolic (time values enumerated)', bounds='one local sleeper, one sleep scheduled by the other thread, one pre-emption',
+                      outside='a real second OS thread running the worker (thread / pool mode start-up and shutdown); several foreign sleeps'))
     return units
